@@ -175,7 +175,7 @@ def check_C10(res, scratch, tier, seed):
     if tier == "thorough":
         run_family(res, scratch, "F3", mcgram_cfg([1, 2], [11, 12], 3, 2, 0, False, [0], False), mk, builds=builds, mine=mine, timeout=3000)
     res.cov["distinct_nontrivial"] = sum(f["vectors"] for f in res.notes["families"])
-    corpus_part(res, scratch, tier, seed, "C10", [], ("curated", "chains", "random", "random_err"), builds=builds, define_only=True, mine=mine)
+    corpus_part(res, scratch, tier, seed, "C10", [], ("curated", "chains", "loops", "random", "random_err"), builds=builds, define_only=True, mine=mine)
     res.cov["exhaustive"] = True
 
 
@@ -329,7 +329,7 @@ def run_api(res, scratch, tier, seed, prop, owners):
         raise Infra("no behaviours printed by TLC\n" + t["tail"][-2000:])
     distinct = {json.dumps([(e["op"], e.get("d"), e.get("w"), e.get("which")) for e in h]) for h in behs}
     res.cov["distinct_nontrivial"] += len(distinct)
-    res.cov["rule"] = ("TLC simulates the API-history machine spec/Api.tla (%d slots, definition pool of 8 good/defective definitions by callbacks and by "
+    res.cov["rule"] = ("TLC simulates the API-history machine spec/Api.tla (%d slots, definition pool of 9 good/defective definitions (one with 170 terminals) by callbacks and by "
                        "description text, 11 inputs incl. undeclared codes inside a gap and outside the declared range, 4 allocator modes, all setters) and prints "
                        "behaviours of %d calls with the result every call must have given only the slot's own state; the harness executes them (plain and ASan "
                        "builds, two code assignments incl. code 0) comparing return code, error code/message, setter results, root/callbacks, allocator ledgers, "
@@ -390,6 +390,8 @@ def corpus_entries(tier, seed, kinds):
     ents = []
     if "curated" in kinds:
         ents += _corpus.curated()
+    if "loops" in kinds:
+        ents += _corpus.loop_shapes()
     if "chains" in kinds:
         ents += _corpus.chain_family(5) + _corpus.loop_via_late_nullable()
         if tier == "thorough":
@@ -618,8 +620,9 @@ def check_C19(res, scratch, tier, seed):
     configs = []
     for hashop in ("HashColl", "HashId", "HashSpread"):
         configs.append(("hash", hashop, [0, 1, 5], [1], ["HashAbs", "HashNoDup", "HashFindExact", "HashCount", "HashSearchTerminates"]))
-    configs.append(("os", "HashId", [0, 8, 16], [1, 7, 20, 600], ["OsFits"]))
-    configs.append(("vlo", "HashId", [0, 1, 8], [1, 7, 20, 600], ["VloFits"]))
+    # initial lengths that are not multiples of the alignment, small chunks to end an object inside the last word
+    configs.append(("os", "HashId", [0, 8, 13, 16, 100], [1, 3, 7, 20, 600], ["OsFits"]))
+    configs.append(("vlo", "HashId", [0, 1, 8, 13], [1, 3, 7, 20, 600], ["VloFits"]))
     blocks = []
     nontriv = 0
     for which, hashop, sizes, chunks, invs in configs:
@@ -632,7 +635,7 @@ def check_C19(res, scratch, tier, seed):
             raise Infra("TLC Cont %s: %s\n%s" % (tag, t["status"], t["tail"][-3000:]))
         res.add_tlc(t)
         # (V) simulated behaviours
-        t = run_tlc(scratch, "Cont", cont_cfg(which, univ, hashop, sizes, chunks, depth_sim), tag + "_sim", simulate=nsim, depth=depth_sim + 3,
+        t = run_tlc(scratch, "Cont", cont_cfg(which, univ, hashop, sizes, chunks, depth_sim), tag + "_sim", simulate=nsim * (1 if which == "hash" else 2), depth=depth_sim + 3,
                     timeout=1500, extra=("-seed", str(seed)))
         k = 0
         for v in tlc_vectors(t["out"]):
@@ -695,8 +698,9 @@ def check_C17(res, scratch, tier, seed):
         fi = next(i for i, e in enumerate(h) if e.get("fault"))
         pre = h[:fi]
         ok_parses = [e for e in pre if e["op"] == "parse" and e["rcs"] == [0]]
+        f = h[fi]
         return (sum(1 for e in ok_parses if e["one"] == 0 or e["cost"] == 1) * 3 + len(ok_parses) + sum(1 for e in pre if e["op"] == "define")
-                + (2 if len({e.get("s") for e in pre}) > 1 else 0))
+                + (2 if len({e.get("s") for e in pre}) > 1 else 0) + (6 if f.get("d") == 9 else 0))      # the big definition has the most allocation points
     uniq.sort(key=richness, reverse=True)
     maxscen = 80 if tier == "quick" else 500
     uniq = uniq[:maxscen]
